@@ -21,6 +21,7 @@ void ch_init(const uint8_t *b, size_t n) { ch_b = b; ch_len = n; ch_pos = 0; }
 unsigned ch_byte(void) { return ch_pos < ch_len ? ch_b[ch_pos++] : 0; }
 int ch_exhausted(void) { return ch_pos >= ch_len; }
 size_t ch_used(void) { return ch_pos; }
+void ch_seek(size_t pos) { ch_pos = pos; }
 unsigned ch_n(unsigned k)
 {
 	if (k <= 1) return 0;
